@@ -1292,6 +1292,9 @@ func (c *control) dirR(colon, at bool, params []any) {
 				break
 			}
 		}
+		if 0 <= i {
+			slip.ErrorPanic(c.scope, 0, "number too large to print in English using the Radix directive at %d of %q", c.pos, c.str)
+		}
 		if colon && digits[len(digits)-1] == '0' && (len(digits) < 2 || digits[len(digits)-2] != '1') {
 			// The number ends in a multiple of ten, a hundred, a thousand, ... so
 			// the last word is still a cardinal: twenty -> twentieth, hundred ->
